@@ -328,6 +328,15 @@ pub fn run(r: &mut Runner) {
         // double-double neighbourhoods (0..16 ulps and a geometric tail; thorough: 0..80 and tail) of nice values and of
         // their images under every elementary function: pre-images of nice results, where a result may be snapped
         let mut nb = crate::fx::nice_neighbourhoods(quick);
+        // every exponent of the stated range with a thin set of fractions and low words, both signs (a rescaling step,
+        // an exponent-indexed table or a branch on the exponent field may treat one binade differently)
+        if quick {
+            let all: Vec<i32> = (-1000..=959).collect();
+            for w in crate::fx::grid_thin(&all, 1, 415) {
+                nb.push(w);
+                nb.push([-w[0], -w[1]]);
+            }
+        }
         // both sides of the end points of the stated ranges and of the documented internal thresholds
         nb.extend(crate::fx::edge_points(&[2f64.powi(-1000), 2f64.powi(960), 1.0, 0.75, 2f64.powi(-8), 0.5], quick));
         let nn = nb.len();
